@@ -4,6 +4,7 @@ package main
 
 import (
 	"fmt"
+	"math"
 	"sync"
 	"go/types"
 	"strconv"
@@ -36,6 +37,13 @@ func (in *Interp) intrinsic(fn *ssa.Function) (intrinsicFn, bool) {
 	h, ok := intrinsics[key]
 	if !ok {
 		h, ok = lateIntrinsics[key]
+	}
+	if !ok && (strings.HasPrefix(key, "(time.Time).") || strings.HasPrefix(key, "(*time.Time).")) {
+		name := key
+		return func(in *Interp, fr *frame, args []Value) Value {
+			unsup("%s on the engine's clock model", name)
+			return nil
+		}, true
 	}
 	if ok {
 		in.ex.stats.Stubs["native model: "+key] = true
@@ -180,7 +188,11 @@ func init() {
 	reg("strings.IndexByte", intrinsics["internal/bytealg.IndexByteString"])
 	reg("bytes.IndexByte", intrinsics["internal/bytealg.IndexByte"])
 	reg("internal/bytealg.Equal", func(in *Interp, fr *frame, args []Value) Value {
-		return bytesEq(bytesOfSlice(args[0].(Slice)), bytesOfSlice(args[1].(Slice)))
+		a, b := args[0].(Slice), args[1].(Slice)
+		if a.opq != nil || b.opq != nil {
+			return strEq(sliceAsStr(a), sliceAsStr(b))
+		}
+		return bytesEq(bytesOfSlice(a), bytesOfSlice(b))
 	})
 	reg("bytes.Equal", intrinsics["internal/bytealg.Equal"])
 	reg("internal/bytealg.MakeNoZero", func(in *Interp, fr *frame, args []Value) Value {
@@ -541,6 +553,46 @@ func init() {
 	reg("runtime.Callers", func(in *Interp, fr *frame, args []Value) Value { return BV(64, 0) })
 	reg("runtime.FuncForPC", func(in *Interp, fr *frame, args []Value) Value { return (*Value)(nil) })
 
+	// --- float bit patterns (transport only) ---
+	reg("math.Float64frombits", func(in *Interp, fr *frame, args []Value) Value {
+		t := args[0].(*Term)
+		if t.op == OpConst {
+			return math.Float64frombits(t.c)
+		}
+		return OpaqueFloat{src: t, bits: true}
+	})
+	reg("math.Float64bits", func(in *Interp, fr *frame, args []Value) Value {
+		switch f := args[0].(type) {
+		case float64:
+			return BV(64, math.Float64bits(f))
+		case OpaqueFloat:
+			if f.bits {
+				return f.src
+			}
+		}
+		unsup("Float64bits of %T", args[0])
+		return nil
+	})
+	reg("math.Float32frombits", func(in *Interp, fr *frame, args []Value) Value {
+		t := args[0].(*Term)
+		if t.op == OpConst {
+			return math.Float32frombits(uint32(t.c))
+		}
+		unsup("Float32frombits of symbolic value")
+		return nil
+	})
+	reg("math.Float32bits", func(in *Interp, fr *frame, args []Value) Value {
+		if f, ok := args[0].(float32); ok {
+			return BV(32, uint64(math.Float32bits(f)))
+		}
+		unsup("Float32bits of %T", args[0])
+		return nil
+	})
+	reg("math.NaN", func(in *Interp, fr *frame, args []Value) Value { return math.NaN() })
+	reg("math.Inf", func(in *Interp, fr *frame, args []Value) Value {
+		return math.Inf(int(int64(args[0].(*Term).c)))
+	})
+
 	// --- runtime / misc ---
 	reg("runtime.Stack", func(in *Interp, fr *frame, args []Value) Value { return BV(64, 0) })
 	reg("runtime.Gosched", func(in *Interp, fr *frame, args []Value) Value { in.sched.maybePreempt(); return nil })
@@ -554,12 +606,6 @@ func init() {
 
 	// time
 	reg("time.Now", func(in *Interp, fr *frame, args []Value) Value { return in.timeNow() })
-	reg("time.Since", func(in *Interp, fr *frame, args []Value) Value {
-		now := in.timeNow().(Struct)
-		t := args[0].(Struct)
-		// both are {wall=0, ext=nanos since an arbitrary epoch, loc}
-		return Sub(now[1].(*Term), t[1].(*Term))
-	})
 	reg("time.Sleep", func(in *Interp, fr *frame, args []Value) Value { in.sched.maybePreempt(); return nil })
 	reg("time.NewTicker", func(in *Interp, fr *frame, args []Value) Value {
 		tt := in.prog.ImportedPackage("time").Type("Ticker").Type()
@@ -668,20 +714,67 @@ func (in *Interp) invokeMethod(fr *frame, recv Iface, name string) Value {
 	panic("invokeMethod: no method " + name + " on " + recv.T.String())
 }
 
-// timeNow: nondeterministic non-decreasing clock; Time{wall:0, ext:nanos, loc:nil}
-func (in *Interp) timeNow() Value {
+// Time model: time.Time{wall: 0, ext: nanoseconds since the Unix epoch, loc: nil}.
+// Only the methods registered below are available on it; every other
+// (time.Time) method is unsupported (it would misread the representation).
+func (in *Interp) mkTime(ns *Term) Value {
 	tt := in.prog.ImportedPackage("time").Type("Time").Type()
 	v := zero(tt).(Struct)
+	v[1] = ns
+	return v
+}
+
+func timeNs(v Value) *Term { return v.(Struct)[1].(*Term) }
+
+// timeNow: the harness-fixed clock, else a nondeterministic non-decreasing one.
+func (in *Interp) timeNow() Value {
+	if in.mainPkg != nil {
+		if cv := in.mainPkg.Var("verifClockNs"); cv != nil {
+			c := load(in.globalAddr(cv)).(*Term)
+			if !(c.op == OpConst && c.c == 0) {
+				return in.mkTime(c)
+			}
+		}
+	}
 	n := in.ex.freshInternal("clock", 64)
-	// non-decreasing and non-negative, well below overflow
 	prev := in.lastClock
 	if prev == nil {
 		prev = BV(64, 0)
 	}
 	in.ex.assume(BAnd(Sle(prev, n), Slt(n, BV(64, 1<<62))))
 	in.lastClock = n
-	v[1] = n
-	return v
+	return in.mkTime(n)
+}
+
+func init() {
+	reg := func(name string, f intrinsicFn) { lateIntrinsics[name] = f }
+	reg("(time.Time).UnixNano", func(in *Interp, fr *frame, args []Value) Value { return timeNs(args[0]) })
+	reg("(time.Time).UnixMilli", func(in *Interp, fr *frame, args []Value) Value { return SDiv(timeNs(args[0]), BV(64, 1000000)) })
+	reg("(time.Time).UnixMicro", func(in *Interp, fr *frame, args []Value) Value { return SDiv(timeNs(args[0]), BV(64, 1000)) })
+	reg("(time.Time).Unix", func(in *Interp, fr *frame, args []Value) Value { return SDiv(timeNs(args[0]), BV(64, 1000000000)) })
+	reg("(time.Time).Sub", func(in *Interp, fr *frame, args []Value) Value { return Sub(timeNs(args[0]), timeNs(args[1])) })
+	reg("(time.Time).Add", func(in *Interp, fr *frame, args []Value) Value {
+		return in.mkTime(Add(timeNs(args[0]), args[1].(*Term)))
+	})
+	reg("(time.Time).Before", func(in *Interp, fr *frame, args []Value) Value { return Slt(timeNs(args[0]), timeNs(args[1])) })
+	reg("(time.Time).After", func(in *Interp, fr *frame, args []Value) Value { return Slt(timeNs(args[1]), timeNs(args[0])) })
+	reg("(time.Time).Equal", func(in *Interp, fr *frame, args []Value) Value { return Eq(timeNs(args[0]), timeNs(args[1])) })
+	reg("(time.Time).IsZero", func(in *Interp, fr *frame, args []Value) Value {
+		st := args[0].(Struct)
+		return BAnd(Eq(st[0].(*Term), BV(64, 0)), Eq(st[1].(*Term), BV(64, 0)))
+	})
+	reg("time.Unix", func(in *Interp, fr *frame, args []Value) Value {
+		return in.mkTime(Add(Mul(args[0].(*Term), BV(64, 1000000000)), args[1].(*Term)))
+	})
+	reg("time.UnixMilli", func(in *Interp, fr *frame, args []Value) Value {
+		return in.mkTime(Mul(args[0].(*Term), BV(64, 1000000)))
+	})
+	reg("time.Since", func(in *Interp, fr *frame, args []Value) Value {
+		return Sub(timeNs(in.timeNow()), timeNs(args[0]))
+	})
+	reg("time.Until", func(in *Interp, fr *frame, args []Value) Value {
+		return Sub(timeNs(args[0]), timeNs(in.timeNow()))
+	})
 }
 
 // ---- byte-sequence kernels ----
